@@ -110,8 +110,55 @@ def make_case(rng, n, ncols, splits, family, rich=False, smallcap=None, via=None
                 pool = rng.choice([[0, 0, 1, 2, 3, 7, 12], [0.0, 0.0, 0.5, 1.25, 2.0, 3.5]])
                 columns[j] = [rng.choice(pool) for _ in range(n)]
     rows = [[columns[j][i] for j in range(ncols)] for i in range(n)]
-    return {"cols": cols, "rows": rows, "splits": splits, "thr": thr, "bound": bound, "syms": syms,
+    case = {"cols": cols, "rows": rows, "splits": splits, "thr": thr, "bound": bound, "syms": syms,
             "smallcap": smallcap, "via": via, "family": family}
+    if via == "batch":
+        glue(rng, case)
+    return case
+
+
+NUMPOOL = ["", "", "1", "2.5", "-1", "-1", "-999", "0", "3", "10", "7.25", "1e3", "3"]
+NUMSYMS = [",-1,-999", ",-999", "-1,-999", ",{}", ",-1", ",{},-1"]
+
+
+def glue(rng, case, first=0):
+    """round 5: the stages between the parsed rows and the statistics inside compute_batch_ranking.
+    (a) declared-numeric columns + a transformer preset: every cell of such a column is '' / None or a float() literal (what the
+        unchanged transformer stage accepts), among them sentinels that are missing-value symbols ('-1', '-999');
+    (b) interaction_order 2: the constructed `a AND b` columns are judged as well, against the explicit value tuples.
+    The expectation is unchanged: the statistics of the concatenated ORIGINAL cells."""
+    cols = case["cols"]
+    u = rng.random()
+    if u < 0.35:
+        cand = list(range(first, len(cols)))
+        pick = rng.sample(cand, min(len(cand), rng.randint(1, 2)))
+        for j in pick:
+            keep_none = case.get("via") != "pipeline" or case.get("source") == "ob-vw"
+            for r in case["rows"]:
+                r[j] = None if (keep_none and r[j] is None) else rng.choice(NUMPOOL)
+        case["numeric"] = [cols[j] for j in pick]
+        case["transformers"] = "minimal" if rng.random() < 0.75 else "none"
+        case["syms"] = rng.choice(NUMSYMS)
+    elif u < 0.65 and len(cols) >= 3:
+        case["interaction_order"] = 2
+    return case
+
+
+def derive(case):
+    """the interaction columns compute_combined_features adds (all pairs of non-label columns, in column order) as explicit
+    length-prefixed value tuples (the string that is hashed there; None is carried as '')"""
+    if int(case.get("interaction_order") or 1) < 2:
+        return [], case["rows"], []
+    cols = case["cols"]
+    pairs = list(itertools.combinations(range(len(cols) - 1), 2))
+    names = ["%s AND %s" % (cols[a], cols[b]) for a, b in pairs]
+
+    def pre(v):
+        v = "" if v is None else str(v)
+        return "%d:%s" % (len(v), v)
+    erows = [list(r) + [pre(r[a]) + pre(r[b]) for a, b in pairs] for r in case["rows"]]
+    strings = sorted({x for r in erows for x in r[len(cols):]})
+    return names, erows, strings
 
 
 def gen_small(rng, nmax):
@@ -186,7 +233,7 @@ def gen_pipeline(rng):
     c = make_case(rng, n, rng.randint(2, 4), sp, "pipeline", via="pipeline")
     c["cols"] = ["f%d" % j for j in range(len(c["cols"]))]
     c["rows"] = [[v.replace(",", ";") for v in r] for r in c["rows"]]
-    return c
+    return glue(rng, c)
 
 
 def gen_pipeline_vw(rng):
@@ -203,8 +250,8 @@ def gen_pipeline_vw(rng):
         columns.append(add_none(rng, c) if with_none else c)
     rows = [[columns[j][i] for j in range(ncols)] for i in range(n)]
     sp = [[k] * (n // k) for k in range(1, n + 1) if n % k == 0]
-    return {"cols": cols, "rows": rows, "splits": sp, "thr": thr, "bound": bound, "syms": syms, "smallcap": None,
-            "via": "pipeline", "source": "ob-vw", "family": "pipeline-vw"}
+    return glue(rng, {"cols": cols, "rows": rows, "splits": sp, "thr": thr, "bound": bound, "syms": syms, "smallcap": None,
+                      "via": "pipeline", "source": "ob-vw", "family": "pipeline-vw"}, first=1)
 
 
 def gen_many_batches(rng):
@@ -249,6 +296,16 @@ def fixed_cases():
         {"cols": ["f0", "f1"], "rows": [["NA", ""], ["-", ""], ["NA", ""], ["", ""]], "splits": [[4], [1, 3], [2, 2]],
          "thr": 5, "bound": 30000, "syms": "NA,-", "smallcap": None, "via": "direct", "family": "fixed"},
     ]
+    # round 5, glue inside compute_batch_ranking: a declared-numeric column with sentinel missing symbols under a transformer
+    # preset (seeded C13-L), and interaction columns whose constituents' value domains differ between batches (seeded C10-L)
+    price = ["3", "-1", "", "-999", "2.5", "-1", "7.25", "-999", "3", None, "-1", "10"]
+    out.append({"cols": ["price", "cat", "label"], "rows": [[price[i], "c%d" % (i % 3), str(i % 2)] for i in range(12)],
+                "splits": [[12], [4, 8], [6, 6], [3, 3, 3, 3]], "thr": 2, "bound": 30000, "syms": ",-1,-999", "smallcap": None,
+                "via": "batch", "numeric": ["price"], "transformers": "minimal", "family": "fixed"})
+    ab = [("x", "p"), ("y", "q"), ("x", "q"), ("y", "p"), ("y", "q"), ("z", "r"), ("z", "q"), ("y", "r"), ("z", "r"), ("x", "p")]
+    out.append({"cols": ["a", "b", "label"], "rows": [[a, b, str(i % 2)] for i, (a, b) in enumerate(ab)],
+                "splits": [[4, 6], [10], [5, 5], [2, 2, 6]], "thr": 1, "bound": 30000, "syms": ",{}", "smallcap": None,
+                "via": "batch", "interaction_order": 2, "family": "fixed"})
     # None cells (absent vw namespaces): not a missing symbol, denominator = rows (seeded C13-C: 'u', None, '{}', 'v' is 75)
     vw = [["1", "u", "x"], ["0", None, "x"], ["1", "{}", None], ["0", "v", None],
           ["1", None, None], ["1", None, None], ["0", "{}", None], ["0", "", "x"],
@@ -389,7 +446,9 @@ CONSTS = {}
 def evaluate(cases, stats=None):
     """Returns (problems per case, info per case).  A problem = dict(clause, obligation, splits, impl, model)."""
     outdir = os.path.join(vlib.CACHE, "c13_out_%d" % os.getpid())
-    res = vlib.run_impl("impl_c13.py", {"cases": cases, "outdir": outdir})
+    derived = [derive(c) for c in cases]
+    sent = [dict(c, icols=d[0], istrings=d[2]) if d[0] else c for c, d in zip(cases, derived)]
+    res = vlib.run_impl("impl_c13.py", {"cases": sent, "outdir": outdir})
     if res.get("extract_error"):
         # observation point lost: the runner fell back to replicated statements; keep searching for a failing input
         EXTRACT["error"] = res["extract_error"]
@@ -411,7 +470,26 @@ def evaluate(cases, stats=None):
     keepmap = {}
     cases_eff = list(cases)
     results_eff = list(results)
-    for i, (case, r) in enumerate(zip(cases, results)):
+    for i, (c, d) in enumerate(zip(cases, derived)):
+        if d[0]:
+            # interaction columns: judged as columns of the explicit value tuples; the implementation's cells (xxh64 digests)
+            # are translated back through the tabulated digests (a cell that is no such digest stays as it is and disagrees)
+            cases_eff[i] = dict(c, cols=list(c["cols"]) + d[0], rows=d[1])
+            inv = {hx: s for s, hx in results[i].get("xx64", [])}
+
+            def tr(col, e):
+                return ["s", inv.get(e[1], "?" + e[1])] if (col in d[0] and e[0] == "s") else e
+            hs = []
+            for h in results[i]["histories"]:
+                if h.get("ok"):
+                    rf = h.get("rare_file")
+                    if rf:
+                        rf = dict(rf, rows=[[x[0], inv.get(x[1], "?" + x[1]) if x[0] in d[0] else x[1]] + list(x[2:]) for x in rf["rows"]])
+                    h = dict(h, rare=[[kk[0], tr(kk[0], kk[1]), kk[2]] for kk in h["rare"]], rare_file=rf,
+                             counter={cc: (None if v is None else [[tr(cc, kv[0]), kv[1]] for kv in v]) for cc, v in h["counter"].items()})
+                hs.append(h)
+            results_eff[i] = dict(results[i], histories=hs)
+    for i, (case, r) in enumerate(zip(cases_eff, results_eff)):
         cols = case["cols"]
         if r["hash_error"]:
             problems[i].append(dict(clause="internal_hash raises", obligation="impl-raises", splits=[0],
@@ -644,6 +722,8 @@ def drop_col(case, j):
     c = dict(case)
     c["cols"] = [x for i, x in enumerate(case["cols"]) if i != j]
     c["rows"] = [[x for i, x in enumerate(r) if i != j] for r in case["rows"]]
+    if case.get("numeric"):
+        c["numeric"] = [x for x in case["numeric"] if x != case["cols"][j]]
     return c
 
 
@@ -767,6 +847,7 @@ def check(run, replay):
             bump(hist["batches_per_history"], len(sizes) if len(sizes) <= 8 else ">8")
             hist["histories_with_reentry_of_a_retired_pair"] += 1 if reentry(case, sizes) else 0
             run.count_case([case["cols"], case["rows"], case["thr"], case["bound"], case["syms"], case["smallcap"],
+                            case.get("numeric"), case.get("transformers"), case.get("interaction_order"),
                             case.get("via"), sizes], nontrivial(case, sizes))
         for k in agg:
             agg[k] += info.get(k, 0)
